@@ -43,7 +43,10 @@ type Sys struct {
 	// are projected to the units pool2Unit0 .. pool2Unit0+NUnits2-1 (disjoint from pool 1's 0..NUnits-1)
 	CIDR2   string
 	NUnits2 int
-	events  []core.Event
+	// TwoPools: a second pool with the same lease time, and the operator changing the default pool (no fast path);
+	// the drain probe empties the default pool, makes the other pool the default and empties that one too
+	TwoPools bool
+	events   []core.Event
 }
 
 const (
@@ -83,6 +86,9 @@ func NewSys(variant string, nclients int, cidr string, nunits int, reqUnits []in
 }
 
 func (s *Sys) Name() string {
+	if s.TwoPools {
+		return fmt.Sprintf("dhcp4pools/%s/c%d/%s", s.Variant, s.NClients, s.CIDR)
+	}
 	if s.Sweep {
 		return fmt.Sprintf("dhcp4fpsweep/%s/c%d/%s", s.Variant, s.NClients, s.CIDR)
 	}
@@ -104,13 +110,32 @@ func (s *Sys) WithFastPath() *Sys {
 	c.events = append(c.events, core.Event{"op": "SETDEF2", "c": 0, "u": -1}, core.Event{"op": "SETDEF1", "c": 0, "u": -1})
 	return &c
 }
+
+// WithTwoPools returns a copy of s with a second pool (same lease time) and the SETDEF events.
+func (s *Sys) WithTwoPools() *Sys {
+	c := *s
+	c.TwoPools = true
+	c.CIDR2, c.NUnits2 = "172.16.8.0/29", 8
+	c.events = append(append([]core.Event{}, s.events...), core.Event{"op": "SETDEF2", "c": 0, "u": -1}, core.Event{"op": "SETDEF1", "c": 0, "u": -1})
+	return &c
+}
+
 func (s *Sys) Config() map[string]any {
 	// usable: every host address except the gateway (unit 1), network (0) and broadcast (N-1)
 	var usable []int
 	for u := 2; u <= s.NUnits-2; u++ {
 		usable = append(usable, u)
 	}
+	if s.TwoPools {
+		for u := 2; u <= s.NUnits2-2; u++ {
+			usable = append(usable, pool2Unit0+u)
+		}
+	}
 	cfg := map[string]any{"impl": "dhcp.Server-" + s.Variant, "nclients": s.NClients, "usable": usable, "nunits": s.NUnits, "leaseticks": 2}
+	if s.TwoPools {
+		cfg["impl"] = "dhcp.Server-2pools-" + s.Variant
+		cfg["pool2"] = fmt.Sprintf("%s (same lease time) -> units %d..%d", s.CIDR2, pool2Unit0, pool2Unit0+s.NUnits2-1)
+	}
 	if s.FastPath {
 		cfg["impl"] = "dhcp.Server+dhcp_fastpath.c-" + s.Variant
 		cfg["probes"] = s.fpProbes
@@ -195,12 +220,13 @@ type inst struct {
 	xid       uint32
 	start     time.Time
 	// history digest that only refines node identity (never an oracle)
-	offAge  map[string]int
-	decl    map[string]bool
-	fp      *fpState
-	ackAlt  map[int]bool // the client's current lease was ACKed to its second device
-	direct  bool         // build the next message without relay fields
-	ridOnly bool         // build the next message with an option 82 that has no circuit-id
+	offAge     map[string]int
+	decl       map[string]bool
+	fp         *fpState
+	ackAlt     map[int]bool // the client's current lease was ACKed to its second device
+	direct     bool         // build the next message without relay fields
+	ridOnly    bool         // build the next message with an option 82 that has no circuit-id
+	defaultIs2 bool         // the operator made pool 2 the default pool
 }
 
 func (s *Sys) New() core.Instance {
@@ -232,6 +258,15 @@ func (s *Sys) New() core.Instance {
 		}
 		// the first pool added is the default pool; pool 2 differs in everything a reply carries
 		p2, err = dhcp.NewPool(dhcp.PoolConfig{ID: 2, Name: "q", Network: s.CIDR2, Gateway: s.unitIP(pool2Unit0 + 1).String(), DNSServers: []string{"1.1.1.1"}, LeaseTime: leaseTime2})
+		if err != nil {
+			panic(err)
+		}
+		if err := pm.AddPool(p2); err != nil {
+			panic(err)
+		}
+	}
+	if s.TwoPools {
+		p2, err = dhcp.NewPool(dhcp.PoolConfig{ID: 2, Name: "q", Network: s.CIDR2, Gateway: s.unitIP(pool2Unit0 + 1).String(), DNSServers: []string{"1.1.1.1"}, LeaseTime: leaseTime})
 		if err != nil {
 			panic(err)
 		}
@@ -401,6 +436,7 @@ func (in *inst) Apply(ev core.Event) map[string]any {
 		if err := in.pm.SetDefaultPool(id); err != nil {
 			panic(err)
 		}
+		in.defaultIs2 = id == 2
 		return out("none", -1, -1, false)
 	}
 	panic("unknown op " + op)
@@ -534,17 +570,33 @@ func (in *inst) Fingerprint() string {
 func (in *inst) Probe() map[string]any {
 	got := []int{}
 	seen := map[int]bool{}
-	for i := 0; i < in.s.NUnits+2; i++ {
-		rt, ru := in.send(in.build(100+i, false, dhcpv4.MessageTypeDiscover, nil, nil))
-		if rt != "OFFER" {
-			break
+	next := 100
+	drain := func(n int) bool {
+		for i := 0; i < n+2; i++ {
+			rt, ru := in.send(in.build(next, false, dhcpv4.MessageTypeDiscover, nil, nil))
+			next++
+			if rt != "OFFER" {
+				return true
+			}
+			if seen[ru] {
+				got = append(got, -3) // two fresh clients were offered one address
+				return false
+			}
+			seen[ru] = true
+			got = append(got, ru)
 		}
-		if seen[ru] {
-			got = append(got, -3) // two fresh clients were offered one address
-			break
+		return true
+	}
+	if drain(in.s.NUnits) && in.s.TwoPools {
+		// the default pool is empty now: make the other pool the default and empty it as well
+		other := uint32(2)
+		if in.defaultIs2 {
+			other = 1
 		}
-		seen[ru] = true
-		got = append(got, ru)
+		if err := in.pm.SetDefaultPool(other); err != nil {
+			panic(err)
+		}
+		drain(in.s.NUnits2)
 	}
 	sort.Ints(got)
 	return map[string]any{"drain": got}
